@@ -54,7 +54,8 @@ Lemma seg_write_spec c rate g w lg :
              (g', lg ++ sw_ops c g, match part_write c g.(g_start) rate (sw_part c g w) w with Some _ => true | None => false end)
     /\ g_num g' = g_num g /\ g_start g' = g_start g /\ g_ntp g' = g_ntp g
     /\ g_created g' = sw_created c g
-    /\ g_end g' = Z.max g.(g_end) w.(w_end)
+    /\ g_end g' = match part_write c g.(g_start) rate (sw_part c g w) w with
+                   | Some _ => Z.max g.(g_end) w.(w_end) | None => g.(g_end) end
     /\ g_cur g' = Some (match part_write c g.(g_start) rate (sw_part c g w) w with Some p' => p' | None => sw_part c g w end).
 Proof.
   unfold seg_write, sw_ops, sw_part, sw_created, sw_full.
@@ -102,7 +103,7 @@ Proof. destruct sg; constructor. Qed.
 
 Lemma track_write_sstep c t s x x' o : track_write c t s x = (x', o) -> sstep c (view x) (view x').
 Proof.
-  unfold track_write, view.
+  unfold track_write, track_write_gen, view.
   destruct (nth_error (c_tracks c) t) as [tc|]; [|intros [= <- _]; apply S_none].
   destruct (nth_error (x_trk x) t) as [tr|]; [|intros [= <- _]; apply S_none].
   destruct (t_next tr) as [prev|]; [|intros [= <- _]; apply S_none].
@@ -137,7 +138,7 @@ Lemma track_write_cases c t s x x' o : track_write c t s x = (x', o) ->
       (view x' = (Some g1, ns0, lg1, ac ++ [w]) \/
        exists d n, view x' = (Some (new_seg ns0 d n), ns0 + 1, seg_close g1 lg1, ac ++ [w]))).
 Proof.
-  unfold track_write, view.
+  unfold track_write, track_write_gen, view.
   destruct (nth_error (c_tracks c) t) as [tc|]; [|intros [= <- _]; auto].
   destruct (nth_error (x_trk x) t) as [tr|]; [|intros [= <- _]; auto].
   destruct (t_next tr) as [prev|]; [|intros [= <- _]; auto].
@@ -795,7 +796,7 @@ Lemma dfull_step c v t s x x' o evs : one_v c v -> DFull c v x ((t, s) :: evs) -
   track_write c t s x = (x', o) -> DLogX x' /\ (o <> o_err -> DFull c v x' evs).
 Proof.
   intros [(tcv & Htcv & Hvid) Huniq] (s1 & HD & Hfirst & Hsafe & Hhv & Hlen).
-  unfold track_write.
+  unfold track_write, track_write_gen.
   destruct (nth_error (c_tracks c) t) as [tc|] eqn:Htc.
   2:{ intros [= <- <-]. split; [exists s1; exact HD|]. intros _. exists s1. repeat split; auto.
       intros tr Htr Hn. specialize (Hfirst tr Htr Hn). cbn in Hfirst.
